@@ -43,6 +43,24 @@ def _product(it, a, k):
     return _Iter(list(itertools.product(*lists)))
 
 
+class _ChainFn:
+    name = "itertools.chain"
+
+    def pyvc_call(self, interp, args, kwargs):
+        return _chain(interp, args, kwargs)
+
+    def pyvc_getattr(self, interp, name):
+        if name == "from_iterable":
+            def fi(it, a, k):
+                out = []
+                for x in it.iterate(a[0]):
+                    out.extend(it.iterate(x))
+                return _Iter(out)
+
+            return Builtin("itertools.chain.from_iterable", fi)
+        raise Unsupported(f"chain.{name}")
+
+
 class CountObj:
     def __init__(self, start=0):
         self.v = start
@@ -59,7 +77,7 @@ def make_modules():
     ft.ns["wraps"] = Builtin("functools.wraps", _wraps)
     ft.ns["_lru_cache_wrapper"] = _TypingThing("_lru_cache_wrapper")
     itools = ModuleValue("itertools")
-    itools.ns["chain"] = Builtin("itertools.chain", _chain)
+    itools.ns["chain"] = _ChainFn()
     itools.ns["product"] = Builtin("itertools.product", _product)
     itools.ns["count"] = Builtin("itertools.count", lambda it, a, k: CountObj(a[0] if a else 0))
     return {"functools": ft, "itertools": itools}
